@@ -78,6 +78,16 @@ def enc(v):
         return {'d': {str(k): enc(x) for k, x in v.items()}}
     if isinstance(v, (set, frozenset)):
         return {'set': sorted(enc(x) for x in v)}
+    d = getattr(v, '__dict__', None)
+    if isinstance(d, dict) and type(v).__module__.startswith('dtaidistance'):
+        # an object of the library: its simple public attributes (numbers, arrays) are the observation
+        out = {}
+        for k, x in d.items():
+            if k.startswith('_'):
+                continue
+            if x is None or isinstance(x, (bool, int, float, str)) or (np is not None and isinstance(x, (np.ndarray, np.floating, np.integer))):
+                out[k] = enc(x)
+        return {'o': {'cls': type(v).__module__.replace('dtaidistance.', '', 1) + '.' + type(v).__name__, 'fields': out}}
     return {'repr': repr(v)}
 
 
